@@ -270,3 +270,32 @@ want = {k: ('value' if k.startswith('valid') else 'BiogemeError') for k in CASES
 violated = got != want
 detail = f'{got}'
 ''')
+
+# create_function: the same "second derivatives need first ones" rule guards the construction of the callable
+contract(BASE + 'get_status_id_manager', 'C12', verify=False, pure=True, returns='tuple[list[str], list[str]]',
+         ensures={'t': 'True'}, label='Expression.get_status_id_manager(abstract)',
+         note='names of the elementary expressions with / without identifiers (deterministic, no side effect)')
+contract(BASE + 'create_function', 'C12',
+         types={'database': 'Database | None', 'number_of_draws': 'int', 'gradient': 'bool', 'hessian': 'bool', 'bhhh': 'bool'},
+         returns='Any', check_frame=False, may_raise=['BiogemeError'],
+         ensures={'a_function_only_with_consistent_derivatives': 'not ((hessian or bhhh) and not gradient)'},
+         replay='''
+import warnings; warnings.simplefilter('ignore')
+import pandas as pd
+from biogeme.database import Database
+from biogeme.expressions import Variable, Beta
+from biogeme.exceptions import BiogemeError
+db = Database('d', pd.DataFrame({'x': [1.0, 2.0]}))
+def outcome(**kw):
+    try:
+        (Variable('x') * Beta('b', 1, None, None, 0)).create_function(database=db, number_of_draws=5, **kw); return 'function'
+    except BiogemeError:
+        return 'BiogemeError'
+    except Exception as e:
+        return type(e).__name__
+got = {'hessian only': outcome(gradient=False, hessian=True, bhhh=False), 'bhhh only': outcome(gradient=False, hessian=False, bhhh=True),
+       'both': outcome(gradient=False, hessian=True, bhhh=True), 'all': outcome(gradient=True, hessian=True, bhhh=True),
+       'none': outcome(gradient=False, hessian=False, bhhh=False)}
+violated = got != {'hessian only': 'BiogemeError', 'bhhh only': 'BiogemeError', 'both': 'BiogemeError', 'all': 'function', 'none': 'function'}
+detail = f'{got}'
+''')
